@@ -642,6 +642,7 @@ class Prop:
 # generators
 # ---------------------------------------------------------------------------
 PROBS = [[1, 1], [1, 1], [1, 2], [3, 4], [1, 4], [0, 1], [5, 8]]
+CPROBS = [[1, 1], [1, 1], [1, 1], [3, 4], [1, 2], [0, 1]]
 STRS = ["plain", "T {idx}", "{hier_idx}", "N{idx}/{hier_idx}", "b{{x}}{idx}", "", "Zoë {idx}"]
 TEXTS = ["", "lorem", "x{idx}", "h {hier_idx}.", "Ünï {{q}}"]
 KEYS = ["title", "n", "x", "flag", "when", "txt"]
@@ -696,10 +697,10 @@ def gen_rnd(rng):
 def gen_count(rng):
     r = rng.random()
     if r < 0.45:
-        return rng.choice([0, 1, 1, 2, 2, 3])
+        return rng.choice([0, 1, 2, 2, 3, 3])
     if r < 0.8:
-        lo = rng.randint(0, 2)
-        return {"R": "RangeI", "lo": lo, "hi": lo + rng.randint(1, 2), "p": rng.choice(PROBS), "none": rng.choice([None, None, 1, 2])}
+        lo = rng.choice([0, 1, 1, 2])
+        return {"R": "RangeI", "lo": lo, "hi": lo + rng.randint(1, 3), "p": rng.choice(CPROBS), "none": rng.choice([None, None, 1, 2])}
     if r < 0.88:
         vals = [rng.randint(0, 3) for _ in range(rng.randint(1, 3))]
         return {"R": "Sample", "vals": vals, "counts": None, "p": rng.choice(PROBS)}
@@ -717,7 +718,7 @@ def gen_def(rng):
     k = rng.randint(1, 4)
     T = ["fn", "fail", "cause", "eff"][:k]
     rels = []
-    top = rng.sample(T, rng.randint(1, min(2, k)))
+    top = rng.sample(T[:2], rng.randint(1, min(2, k))) if rng.random() < 0.8 else rng.sample(T, rng.randint(1, min(2, k)))
     top.sort(key=T.index)
     if rng.random() < 0.3:
         top.reverse()
@@ -732,12 +733,12 @@ def gen_def(rng):
     for i, t in enumerate(T):
         later = T[i + 1:]
         r = rng.random()
-        if later and r < 0.65:
+        if later and r < 0.85:
             cs = rng.sample(later, rng.randint(1, min(2, len(later))))
             if rng.random() < 0.7:
                 cs.sort(key=T.index)
             rels.append([t, [[c, rel_spec()] for c in cs]])
-        elif r < 0.75:
+        elif r < 0.92:
             rels.append([t, []])
     if rng.random() < 0.3:
         rng.shuffle(rels)
@@ -763,7 +764,7 @@ def gen_def(rng):
 
 
 def gen_stream(rng):
-    n = rng.choice([0, 3, 10, 30, 60, 120, 120])
+    n = rng.choice([0, 5, 20, 40, 80, 160, 240])
     hi = rng.choice([3, 10, 200])
     return [[rng.randint(-hi, hi), rng.choice([1, 2, 2, 4, 4, 8, 64]), rng.choice(TEXTS)] for _ in range(n)]
 
